@@ -364,7 +364,9 @@ func C06Step(si *engine.StepInfo) []engine.Finding {
 		return nil
 	}
 	switch si.Op.Kind {
-	case "terminate", "claim", "cancel", "removev", "forcepush", "complete":
+	// operations whose only bank transfers are paid by module accounts (a provider's own pledge payment in
+	// "complete" can fail for the provider's lack of funds, which is not an escrow failure)
+	case "terminate", "claim", "cancel", "removev":
 		if strings.Contains(si.Res.Err, "insufficient funds") && payerIsModule(si.Res.Err) {
 			out = append(out, fd("C06", "payout-failed", "insufficient-escrow", si.Res.Err))
 		}
